@@ -198,7 +198,7 @@ Section ExactDiffer.
     apply andb_true_iff. split; apply forallb_forall; intros k Hk; apply mem_In; apply H; exact Hk.
   Qed.
 
-  Lemma model_sel etck safe gens :
+  Lemma model_sel etck (safe : bool) gens :
     (if safe then new_files true (run_file_generators etck gens)
      else new_files false (run_file_generators etck gens)) =
     new_files safe (run_file_generators etck gens).
